@@ -86,6 +86,9 @@ structure PgArray where
   dims : List Nat
   lbounds : List Int
   elems : List (Option Datum)
+  /-- a null bitmap is stored although no element is NULL (PostgreSQL keeps the bitmap of an array that had NULLs
+  when an element is replaced); irrelevant when some element is NULL: the bitmap is then always there -/
+  bitmap : Bool := false
 deriving Repr, Inhabited
 
 def alignUp (o a : Nat) : Nat := (o + a - 1) / a * a
@@ -104,7 +107,7 @@ def PgArray.WF (a : PgArray) : Prop :=
   a.dims.length ≤ 6 ∧ a.lbounds.length = a.dims.length ∧
   (∀ d ∈ a.dims, 1 ≤ d) ∧
   (∀ l ∈ a.lbounds, -2147483648 ≤ l ∧ l ≤ 2147483647) ∧
-  (if a.dims = [] then a.elems = [] else a.elems.length = prod a.dims) ∧
+  (if a.dims = [] then a.elems = [] ∧ a.bitmap = false else a.elems.length = prod a.dims) ∧
   a.elems.length ≤ maxArraySize ∧
   (∀ e ∈ a.elems, ∀ d, e = some d → d.WF a.et)
 
@@ -127,7 +130,8 @@ def encBitmap (bits : List Bool) : Bytes :=
 
 def PgArray.ndim (a : PgArray) : Nat := a.dims.length
 def PgArray.present (a : PgArray) : List Bool := a.elems.map Option.isSome
-def PgArray.hasNulls (a : PgArray) : Bool := a.elems.any Option.isNone
+/-- ARR_HASNULL: the value carries a null bitmap -/
+def PgArray.hasNulls (a : PgArray) : Bool := a.bitmap || a.elems.any Option.isNone
 
 /-- ARR_OVERHEAD_NONULLS / ARR_OVERHEAD_WITHNULLS: where the element data starts, counted from the varlena start -/
 def PgArray.dataStart (a : PgArray) : Nat :=
@@ -144,7 +148,7 @@ def encElems (al : Nat) : List (Option Datum) → Nat → Bytes
   | some d :: es, o =>
     d.enc ++ (zeros (alignUp (o + d.enc.length) al - (o + d.enc.length)) ++ encElems al es (alignUp (o + d.enc.length) al))
 
-/-- null bitmap and the padding to MAXALIGN before the data (nothing when there is no NULL) -/
+/-- null bitmap and the padding to MAXALIGN before the data (nothing when there is no bitmap) -/
 def PgArray.bitmapPart (a : PgArray) : Bytes :=
   if a.hasNulls then
     encBitmap a.present ++ zeros (a.dataStart - (16 + 8 * a.ndim + (a.elems.length + 7) / 8))
@@ -172,6 +176,12 @@ def elemView (dec : Bytes → Nat → M GoVal) (oid : Nat) : Datum → M GoVal
   | .fixed bs => dec bs oid
   | .short p => if p.length = 0 then (match emptyValue oid with | some v => pure v | none => dec p oid) else dec p oid
   | .long p => if p.length = 0 then (match emptyValue oid with | some v => pure v | none => dec p oid) else dec p oid
+
+/-- the same for a scalar decoder that never faults -/
+def elemValue (f : Bytes → Nat → GoVal) (oid : Nat) : Datum → GoVal
+  | .fixed bs => f bs oid
+  | .short p => if p.length = 0 then (emptyValue oid).getD (f p oid) else f p oid
+  | .long p => if p.length = 0 then (emptyValue oid).getD (f p oid) else f p oid
 
 /-- the elements in storage (row-major) order: nil for a NULL, the scalar decoding of its bytes otherwise
 (a fault of the scalar decoder aborts the array) -/
